@@ -36,6 +36,10 @@ type Relay struct {
 
 	// Fault is consulted (under no lock) for every relay operation.
 	Fault func(op RelayOp) RelayAction
+	// Rewrite, if set (before the relay is used), sees every message that is
+	// about to be queued in a mailbox and returns what is queued instead: a
+	// relay that alters traffic. n counts the messages of the stream object.
+	Rewrite func(stream string, n int, msg []byte) []byte
 
 	log     []RelayEvent
 	KeepLog bool
@@ -318,6 +322,10 @@ func (s *sendStream) Send(cb *hashmailrpc.CipherBox) error {
 		r.mu.Unlock()
 		return nil
 	}
+	msg := append([]byte{}, cb.Msg...)
+	if r.Rewrite != nil {
+		msg = r.Rewrite(id, n, msg)
+	}
 	// enqueue, blocking while the box is full
 	for {
 		r.mu.Lock()
@@ -332,7 +340,7 @@ func (s *sendStream) Send(cb *hashmailrpc.CipherBox) error {
 				at = b.lastAt
 			}
 			b.lastAt = at
-			b.q = append(b.q, qmsg{b: append([]byte{}, cb.Msg...), at: at})
+			b.q = append(b.q, qmsg{b: msg, at: at})
 			kick(b.wake)
 			r.mu.Unlock()
 			return nil
